@@ -3,6 +3,7 @@ package execgen
 import (
 	"fmt"
 	"math/rand"
+	"strings"
 	"sync"
 
 	"github.com/onflow/cadence/common"
@@ -626,11 +627,24 @@ access(all) fun main(): [AnyStruct] { let r <- Ent.make(); let r2 <- attach Ent.
 
 func init() { batchTemplates = append(batchTemplates, entTemplates...) }
 
+// GenBatchOf is GenBatch restricted to the templates whose name has the prefix.
+func GenBatchOf(r *rand.Rand, n int, prefix string) Batch {
+	var sel []batchTemplate
+	for _, t := range batchTemplates {
+		if strings.HasPrefix(t.name, prefix) {
+			sel = append(sel, t)
+		}
+	}
+	return genBatch(r, n, sel)
+}
+
 // GenBatch generates a batch of n programs over the shared contracts.
-func GenBatch(r *rand.Rand, n int) Batch {
+func GenBatch(r *rand.Rand, n int) Batch { return genBatch(r, n, batchTemplates) }
+
+func genBatch(r *rand.Rand, n int, templates []batchTemplate) Batch {
 	b := Batch{Contracts: []prog.Step{dep(1, "Lib", libContract), dep(2, "Lib2", lib2Contract), dep(3, "Lib3", lib3Contract), dep(4, "Ent", entContract)}}
 	for i := 0; i < n; i++ {
-		t := batchTemplates[r.Intn(len(batchTemplates))]
+		t := templates[r.Intn(len(templates))]
 		s := t.gen(r)
 		s.Name = t.name
 		b.Programs = append(b.Programs, s)
